@@ -25,13 +25,13 @@ impl ConnectModportOperand {
             .members
             .iter()
             .map(|x| symbol_table::get(*x).unwrap())
-            .filter(|x| matches!(x.kind, SymbolKind::ModportVariableMember(_)))
-            .map(|x| {
+            .filter_map(|x| {
+                // A member naming a variable the interface doesn't declare was
+                // already reported as an undefined identifier: skip it.
                 if let SymbolKind::ModportVariableMember(x) = &x.kind {
-                    let var_symbol = symbol_table::get(x.variable).unwrap();
-                    (var_symbol, x.direction)
+                    symbol_table::get(x.variable).map(|var_symbol| (var_symbol, x.direction))
                 } else {
-                    unreachable!()
+                    None
                 }
             })
             .collect()
